@@ -146,8 +146,8 @@ func init() {
 				}
 				slices.SortFunc(cases, func(a, b tc) int { return a.t.Compare(b.t) })
 				var prev time.Time
-				var prevT time.Time
-				havePrev := false
+				var prevT, ordT time.Time
+				havePrev, haveOrd := false, false
 				for _, c := range cases {
 					got, ok := c04One(r, c.t, t0, c.id)
 					n++
@@ -156,19 +156,23 @@ func init() {
 						r.Violation("TimeFromTime64|wrong-value:order not preserved|"+c04Class(t0s, c.t.Unix()), c.id,
 							map[string]any{"t_prev": prevT.String(), "t": c.t.String(), "r_prev": prev.String(), "r": got.String(), "t0": t0.String()})
 					}
-					if ok {
-						prev, prevT, havePrev = got, c.t, true
-					}
-					// Time64 ordering within one era
-					if havePrev && ntpEra(prevT.Unix()) == ntpEra(c.t.Unix()) && prevT.Unix() >= ntpEpochUnix {
-						a, b := ntp.Time64FromTime(prevT), ntp.Time64FromTime(c.t)
-						if b.Before(a) || a.After(b) {
+					// Time64 ordering within one era: this case against the one before it in time order
+					if haveOrd && ntpEra(ordT.Unix()) == ntpEra(c.t.Unix()) && ordT.Unix() >= ntpEpochUnix {
+						a, b := ntp.Time64FromTime(ordT), ntp.Time64FromTime(c.t)
+						if b.Before(a) || a.After(b) || (a != b && (!a.Before(b) || !b.After(a))) {
 							r.Violation("Time64.Before/After|wrong-value:disagrees with time order in one era", c.id,
-								map[string]any{"t_prev": prevT.String(), "t": c.t.String()})
+								map[string]any{"t_prev": ordT.String(), "t": c.t.String()})
 						}
-						if prevT.Equal(c.t) && (a.Before(b) || a.After(b)) {
+						if a == b && (a.Before(b) || a.After(b)) {
 							r.Violation("Time64.Before/After|wrong-value:equal times compare unequal", c.id, nil)
 						}
+						if (a.Seconds < 1<<31) != (b.Seconds < 1<<31) {
+							r.Class("Time64 order across the middle of an era")
+						}
+					}
+					ordT, haveOrd = c.t, true
+					if ok {
+						prev, prevT, havePrev = got, c.t, true
 					}
 				}
 				if rng.IntN(400) == 0 && len(cases) > 0 {
